@@ -9,6 +9,7 @@ import (
 
 	fibmap "github.com/frostschutz/go-fibmap"
 	"github.com/openebs/jiva/replica"
+	jsync "github.com/openebs/jiva/sync"
 	"github.com/openebs/jiva/types"
 	"github.com/openebs/sparse-tools/sparse"
 )
@@ -83,6 +84,25 @@ func (x *inst) enabled() []string {
 					out = append(out, fmt.Sprintf("Revert:%d", i))
 				}
 			}
+		case "Clean":
+			if !m.Open || m.Mode != "RW" || m.Checkpoint == "" {
+				continue
+			}
+			for _, i := range x.candidates() {
+				if i > 0 {
+					out = append(out, fmt.Sprintf("Clean:%d", i))
+				}
+			}
+		case "RmGate":
+			if m.Open && m.Mode != "RW" && len(m.Chain) >= 2 {
+				out = append(out, t)
+			}
+		case "Sync":
+			out = append(out, t)
+		case "Unmap":
+			if !m.Open { // on an open replica unmap discards data (contents undefined afterwards): outside the read model
+				out = append(out, t)
+			}
 		case "Grow":
 			if !m.Open || (c.MaxGrow > 0 && len(m.Live)/SPB >= c.Blocks+c.MaxGrow) {
 				continue
@@ -143,6 +163,11 @@ func (x *inst) oracles(key string, final bool) {
 			return
 		}
 	}
+	if x.wants("candidates") && m.Open {
+		if !x.candidateOracle() {
+			return
+		}
+	}
 	if x.wants("chain") && m.Open {
 		if !x.chainOracle() {
 			return
@@ -174,6 +199,7 @@ func (x *inst) oracles(key string, final bool) {
 			}
 		}
 	}
+	x.inDeep = true
 	if deep && x.wants("snaprevert") {
 		if !x.snapRevert() {
 			return
@@ -195,7 +221,10 @@ func (x *inst) chainOracle() bool {
 	m := x.m
 	ch := x.chainNames()
 	x.cnt["chain_checks"]++
-	bad := func(sig, d string) bool { x.violate("chain-malformed", sig, d+"\n chain="+fmt.Sprint(ch)); return false }
+	bad := func(sig, d string) bool {
+		x.violate("chain-malformed", sig, d+"\n chain="+fmt.Sprint(ch))
+		return false
+	}
 	if len(ch) != len(m.Chain)+1 {
 		return bad("chain-length", fmt.Sprintf("chain has %d members, model %d", len(ch), len(m.Chain)+1))
 	}
@@ -447,4 +476,79 @@ func (x *inst) reopenOracle() {
 	if sz := x.srv.Replica().Info().Size; sz != int64(len(x.m.Live))*Sector {
 		x.violate("size-lost", "size-after-reopen", fmt.Sprintf("size after reopen %d, model %d", sz, len(x.m.Live)*Sector))
 	}
+}
+
+// candidates asks the real cleaner filter which snapshots it would delete, given the replica's checkpoint; returns model
+// chain indexes (0 = base), -1 for names that are not chain members.
+func (x *inst) candidates() []int {
+	var names []string
+	x.guard("candidates", func() error {
+		var e error
+		names, e = jsync.GetDeleteCandidateChain(x.srv.Replica(), x.srv.Replica().Info().Checkpoint)
+		return e
+	})
+	var out []int
+	for _, n := range names {
+		idx := -1
+		for i, s := range x.m.Chain {
+			if disk(s.Name) == n {
+				idx = i
+			}
+		}
+		out = append(out, idx)
+	}
+	return out
+}
+
+// candidateOracle: the cleaner never selects head, latest, base, the checkpoint or anything newer, a retained user
+// snapshot, or a snapshot whose merge target (parent) is a retained user snapshot.
+func (x *inst) candidateOracle() bool {
+	m := x.m
+	x.cnt["candidate_checks"]++
+	cp := -1
+	for i, s := range m.Chain {
+		if s.Name == m.Checkpoint {
+			cp = i
+		}
+	}
+	c := x.candidates()
+	x.cnt["candidates_returned"] += len(c)
+	bad := func(sig, d string) bool {
+		x.violate("cleaner-candidate", sig, fmt.Sprintf("%s; candidates(model chain indexes, 0=base)=%v checkpoint index=%d chain=%s", d, c, cp, x.chainDesc()))
+		return false
+	}
+	for _, i := range c {
+		switch {
+		case i < 0:
+			return bad("candidate-not-in-chain", "a candidate is not a chain snapshot (head or unknown)")
+		case cp < 0:
+			return bad("candidate-without-checkpoint", "candidates returned although the checkpoint is not a chain member")
+		case i == 0:
+			return bad("candidate-base", "base snapshot selected")
+		case i == len(m.Chain)-1:
+			return bad("candidate-latest", "latest snapshot selected")
+		case i >= cp:
+			return bad("candidate-checkpoint-or-newer", "checkpoint or a newer snapshot selected")
+		case m.Chain[i].Retained():
+			return bad("candidate-retained-user", "retained user snapshot selected")
+		case m.Chain[i-1].Retained():
+			return bad("candidate-merges-into-retained-user", "snapshot whose merge target is a retained user snapshot selected")
+		}
+	}
+	return true
+}
+
+func (x *inst) chainDesc() string {
+	var l []string
+	for _, s := range x.m.Chain {
+		k := "a"
+		if s.User {
+			k = "u"
+		}
+		if s.Removed {
+			k += "r"
+		}
+		l = append(l, k)
+	}
+	return "[" + strings.Join(l, " ") + "]"
 }
